@@ -21,7 +21,7 @@ def clearEffect (call : String × List String) (l : Lists) : Option Lists :=
     some { l with verts := [] }   -- a `Vtx` of the model is the vertex and its `DuplicatedEntry`
   else if call = ("edge_list", ["self.edges.clear()"]) ∨ call = ("edge_list", ["<recreated>"]) then some { l with edges := [] }
   else if call = ("block_list", ["self.blocks.clear()"]) ∨ call = ("block_list", ["<recreated>"]) then some { l with blocks := [] }
-  else if call = ("patch_list", ["for patch in self.patches.values():", "    patch.sides.clear()"]) then
+  else if call = ("patch_list", ["for v0 in self.patches.values():", "    v0.sides.clear()"]) then
     some { l with patches := clearPatches l.patches }
   else if call = ("face_list", ["self.faces.clear()"]) ∨ call = ("face_list", ["<recreated>"]) then some { l with faces := [] }
   else none
@@ -39,11 +39,11 @@ def backportEffect (st : String × List String) (s : Option Mesh) : Option (Opti
   match s with
   | none => some none
   | some m =>
-    if st = ("if not self.is_assembled:", ["    raise RuntimeError('Cannot backport non-assembled mesh')"]) then
+    if st = ("if not self.is_assembled:", ["    raise RuntimeError"]) then
       some (if isAssembled m then some m else none)
-    else if st = ("for block, op in zip(self.blocks, self.assembled):",
-        ["    vertices = [vertex.position for vertex in block.vertices]", "    op.bottom_face.update(vertices[:4])",
-         "    op.top_face.update(vertices[4:])"]) then
+    else if st = ("for v0, v1 in zip(self.blocks, self.assembled):",
+        ["    v2 = [v3.position for v3 in v0.vertices]", "    v1.bottom_face.update(v2[:4])",
+         "    v1.top_face.update(v2[4:])"]) then
       -- `Face.update` assigns the given positions to the four points of the face: the first four positions go to the
       -- bottom face (corners 0..3), the rest to the top face (corners 4..7)
       some (some { m with depot := backportDepot m.lists.verts (m.lists.blocks.zip m.lists.assembled) m.depot })
@@ -61,7 +61,7 @@ def gradeEffect (st : String × List String) (s : Mesh × Option Err) : Option (
   match s.2 with
   | some _ => some s
   | none =>
-    if st = ("if not self.is_assembled:", ["    raise RuntimeError('Cannot grade a mesh before it is assembled')"]) then
+    if st = ("if not self.is_assembled:", ["    raise RuntimeError"]) then
       some (if isAssembled s.1 then s else (s.1, some .notAssembled))
     else if st = ("self.block_list.grade_blocks()", []) then some (gradeBlocks s.1, none)
     else if st = ("self.block_list.propagate_gradings()", []) then
@@ -80,7 +80,7 @@ def writePreEffect (grade : List (String × List String)) (st : String × List S
   | some _ => some s
   | none =>
     if st = ("if not self.is_assembled:", ["    self.assemble()"]) then some (if isAssembled s.1 then s else (assemble s.1, none))
-    else if st = ("if debug_path is not None:", ["    write_vtk(debug_path, self.vertex_list.vertices, self.block_list.blocks)"]) then
+    else if st = ("if v1 is not None:", ["    write_vtk(v1, self.vertex_list.vertices, self.block_list.blocks)"]) then
       some s   -- the histories never pass a debug path
     else if st = ("self.grade()", []) then gradeBy grade s.1
     else none
@@ -97,7 +97,7 @@ def writeBy (pre grade : List (String × List String)) (sections : List String) 
 theorem isAssembled_gradeBlocks (m : Mesh) : isAssembled (gradeBlocks m) = isAssembled m := rfl
 
 theorem gradeBy_eq (m : Mesh) :
-    gradeBy [("if not self.is_assembled:", ["    raise RuntimeError('Cannot grade a mesh before it is assembled')"]),
+    gradeBy [("if not self.is_assembled:", ["    raise RuntimeError"]),
        ("self.block_list.grade_blocks()", []), ("self.block_list.propagate_gradings()", []),
        ("self.block_list.check_consistency()", [])] m
     = some (if isAssembled m then
@@ -111,9 +111,9 @@ theorem gradeBy_eq (m : Mesh) :
 
 theorem writeBy_eq (m : Mesh) :
     writeBy [("if not self.is_assembled:", ["    self.assemble()"]),
-       ("if debug_path is not None:", ["    write_vtk(debug_path, self.vertex_list.vertices, self.block_list.blocks)"]),
+       ("if v1 is not None:", ["    write_vtk(v1, self.vertex_list.vertices, self.block_list.blocks)"]),
        ("self.grade()", [])]
-      [("if not self.is_assembled:", ["    raise RuntimeError('Cannot grade a mesh before it is assembled')"]),
+      [("if not self.is_assembled:", ["    raise RuntimeError"]),
        ("self.block_list.grade_blocks()", []), ("self.block_list.propagate_gradings()", []),
        ("self.block_list.check_consistency()", [])] CBV.Gen.c12WriteSections m = some (write m) := by
   have hr : ∀ x, renderBy CBV.Gen.c12WriteSections x = some (render x) := by
@@ -129,9 +129,5 @@ theorem writeBy_eq (m : Mesh) :
       · simp [writePreEffect, gradeBy_eq, ha, hb, hd, hr, -List.all_eq_true]
       · simp [writePreEffect, gradeBy_eq, ha, hb, hd, hr, -List.all_eq_true]
     · simp [writePreEffect, gradeBy_eq, ha, hb, hr, -List.all_eq_true]
-
-/-! ### the one-statement methods -/
-
-def methodStmts (name : String) : List (String × List String) := (CBV.Gen.c12Methods.lookup name).getD []
 
 end CBV.C12
